@@ -58,7 +58,7 @@ pub fn info() -> PropInfo {
             "adv.same", "adv.inline", "adv.loc1", "adv.loc2", "adv.loc4", "adv.f0x3f", "adv.f0x40", "adv.f0xff", "adv.f0x100", "adv.f0xffff", "adv.f0x10000",
             "reg.0x3f", "reg.0x40", "reg.large", "off.neg", "off.pos", "caf.0", "daf.0", "daf.neg", "daf.pos",
             "cie.dup_exact", "cie.near_dup", "cie.unreferenced", "cie.shared_by_fdes", "cie.mixed_asize", "table.empty",
-            "rows.compared", "rows.unjudged", "readback.tables", "expr.raw", "expr.ops",
+            "rows.compared", "readback.tables", "expr.raw", "expr.ops",
         ],
         run,
     }
